@@ -734,7 +734,13 @@ void File::uncompressedFile2ReadWriteQueue() {
     }
 
     /* read object */
-    obj->read(m_uncompressedFile);
+    try {
+        obj->read(m_uncompressedFile);
+    } catch (...) {
+        /* e.g. std::bad_alloc / std::length_error for an absurd declared size: the object is still ours */
+        delete obj;
+        throw;
+    }
     if (!m_uncompressedFile.good()) {
         delete obj;
         throw Exception("File::uncompressedFile2ReadWriteQueue(): Read beyond end of file.");
